@@ -300,6 +300,17 @@ class sym_set(metaclass=_SetMeta):
         return builtins.set(it)
 
 
+def sym_is_integer(i):
+    """dask.utils.is_integer on proxies (same definition: Integral, or a float that is whole)"""
+    if isinstance(i, SymInt):
+        return True
+    if isinstance(i, SymReal):
+        return i.is_integer()
+    import dask.utils
+
+    return dask.utils.is_integer(i)
+
+
 def pure_cached_cumsum(seq, initial_zero=False):
     """dask.utils.cached_cumsum without the identity/hash cache (same values)."""
     out = []
@@ -326,6 +337,7 @@ SHIM_LIST = [
     "math.isnan/ceil/floor/prod on proxies; math.log/sqrt concretise",
     "np.isnan/ceil/floor/prod/cumsum on proxies; np.log/sqrt concretise",
     "dask.utils.cached_cumsum -> same values without the identity/hash cache",
+    "dask.utils.is_integer -> same definition on proxies",
 ]
 
 
@@ -384,6 +396,8 @@ class World:
                     ns["np"] = SymNp()
                 if "cached_cumsum" in ns:
                     ns["cached_cumsum"] = pure_cached_cumsum
+                if "is_integer" in ns and getattr(ns["is_integer"], "__module__", "") == "dask.utils":
+                    ns["is_integer"] = sym_is_integer
             ns.update(self.extra)
             ns.update(self.extra_by_module.get(n, {}))
 
@@ -427,6 +441,11 @@ class World:
     # -- access
     def fn(self, module, name):
         return self.ns[module][name]
+
+    def clone_of(self, module, name):
+        """The clone of the repository's own function, even when ``extra`` shadows its name
+        (for wrappers that record calls and delegate)."""
+        return self._clone(self.mods[module].__dict__[name])
 
     def method(self, cls, name):
         """Clone of a method / property getter / cached_property body of a repo class."""
